@@ -692,6 +692,33 @@ def call_opaque_method(interp, o, name, m, args, kwargs):
         st.assume(ok)
     if m.event is not None:
         st.emit(m.event, o, tuple(args))
+    key = None
+    if m.pure:
+        # the result is a function of (object, arguments): scalar arguments and the indices of opaque
+        # arguments become arguments of the uninterpreted function(s) that stand for the result
+        flat = []
+        for a in args:
+            if isinstance(a, tuple) and all(isinstance(x, (SInt, SBool, SStr, int, str, bool)) for x in a):
+                flat.extend(a)
+            else:
+                flat.append(a)
+        args = flat
+        name_parts, idx_terms, keyparts, functional = [], list(o._pv_index), [], True
+        for a in args:
+            if isinstance(a, (SInt, SBool, SStr, int, str, bool)):
+                idx_terms.append(to_z3(a))
+                keyparts.append(z3.simplify(to_z3(a)).sexpr())
+            elif isinstance(a, Opaque):
+                name_parts.append(a._pv_uid)
+                idx_terms.extend(a._pv_index)
+                keyparts.append((a._pv_uid, tuple(z3.simplify(i).sexpr() for i in a._pv_index)))
+            else:
+                functional = False
+                keyparts.append(id(a))
+        key = ('__call__', name, tuple(keyparts))
+        if key in o._pv_attrs:
+            # a pure method is a function: having returned once it returns the same again (and does not raise)
+            return o._pv_attrs[key]
     if m.may_raise:
         k = st.choose(1 + len(m.may_raise))
         if k > 0:
@@ -701,37 +728,13 @@ def call_opaque_method(interp, o, name, m, args, kwargs):
                 st.emit(m.event + ':raised', o, exc)
             raise PyRaise(exc)
     if m.pure:
-        flat = []
-        for a in args:
-            if isinstance(a, tuple) and all(isinstance(x, (SInt, SBool, SStr, int, str, bool)) for x in a):
-                flat.extend(a)
-            else:
-                flat.append(a)
-        args = flat
-        key = ('__call__', name, tuple(z3.simplify(to_z3(a)).sexpr() if isinstance(a, (Sym, int, str, bool))
-                                        and not isinstance(a, (SOpt, SChoice, SList)) else id(a) for a in args))
-        if key in o._pv_attrs:
-            return o._pv_attrs[key]
-        if all(isinstance(a, (SInt, SBool, SStr, int, str, bool)) for a in args) and \
-                isinstance(m.returns, (_Int, _Bool, _Str)):
-            sorts = [x.sort() for x in o._pv_index] + [to_z3(a).sort() for a in args]
-            rs = {_Int: z3.IntSort(), _Bool: z3.BoolSort(), _Str: z3.StringSort()}[type(m.returns)]
-            f = z3.Function('%s.%s()' % (o._pv_uid, name), *(sorts + [rs]))
-            r = wrap(f(*(list(o._pv_index) + [to_z3(a) for a in args])))
-            if isinstance(r, SInt) and m.returns.lo is not None:
-                st.assume(r.t >= m.returns.lo)
-        elif all(isinstance(a, (SInt, SBool, SStr, int, str, bool)) for a in args) and isinstance(m.returns, Iface):
-            # structured result of a pure method: an opaque object indexed by (object index, arguments),
-            # i.e. its attributes are functions of the arguments
-            iface = m.returns.iface() if isinstance(m.returns.iface, types.FunctionType) else m.returns.iface
-            r = new_opaque(interp, iface, '%s.%s()' % (o._pv_uid, name),
-                           index=tuple(o._pv_index) + tuple(to_z3(a) for a in args))
-        elif o._pv_index and m.returns is not None:
-            # composite result of a pure method of an indexed object: a function of the index
-            akey = ','.join(str(k) for k in key[2])
-            r = make_indexed(interp, m.returns, '%s.%s(%s)' % (o._pv_uid, name, akey), o._pv_index)
+        base = '%s.%s(%s)' % (o._pv_uid, name, ','.join(name_parts))
+        if m.returns is None:
+            r = None
+        elif functional and idx_terms:
+            r = make_indexed(interp, m.returns, base, tuple(idx_terms))
         else:
-            r = m.returns.make(interp, '%s.%s()' % (o._pv_uid, name)) if m.returns is not None else None
+            r = m.returns.make(interp, base)
         o._pv_attrs[key] = r
     else:
         r = m.returns.make(interp, '%s.%s()' % (o._pv_uid, name)) if m.returns is not None else None
